@@ -307,7 +307,7 @@ func wdMonitor() {
 		default:
 			continue
 		}
-		rec.Direct(sub, c, "promptness: %s %s, although the context is cancelled after a bounded number of polls of Done() and every instruction of this program takes microseconds: the loop does not reach a cancellation check", what, why)
+		rec.Direct(sub, c, "promptness: %s %s, although it is bounded (the context is cancelled after a bounded number of polls of Done(), every instruction of the program takes microseconds): the interpreter is looping without reaching a cancellation check", what, why)
 		rec.Close()
 		os.Exit(1)
 	}
